@@ -177,6 +177,12 @@ class ReconnH(explore.Harness):
             for h in att["hosts"]:
                 for b in self.alphabet:
                     m.append(f"ok|{h}|{b}")
+            if "accept+close" in self.triggers and self.n_closes == 0:
+                # the attempt succeeds and the application closes the pairing k loop iterations later: while the secure session is being set
+                # up, just when the connector finishes, before / after the waiting caller is resumed
+                for what in ("close", "shutdown"):
+                    for k_ in range(1, self.p.get("accept_close_span", 40) + 1):
+                        m.append(f"accept+{what}@{k_}")
         else:
             if self.loop.next_timer() is None:
                 # nothing will ever happen on defaults; triggers only (two idle periods of 50 s, then the execution ends)
@@ -237,6 +243,8 @@ class ReconnH(explore.Harness):
             elif t == "zc-changed-last":
                 if len(self.cur_hosts) > 1:
                     m.append(t)  # the LAST advertised address is replaced: the new set overlaps the old one in a different member
+            elif t == "accept+close":
+                pass  # (offered next to the outcomes of a pending attempt, above)
             else:
                 m.append(t)
         return m
@@ -279,6 +287,20 @@ class ReconnH(explore.Harness):
                     m_.add(parts[1])
                     if m_ >= set(self.cur_hosts):
                         m_.clear()  # every advertised address excluded: the next round must try the full list
+        elif k.startswith("accept+"):
+            what, _, n = k[len("accept+"):].partition("@")
+            att = self._pending_att()[0]
+            conn = self.net.accept(att, att["hosts"][0])
+            self._wire_fault(conn, "ok")
+            self.round_open = False
+            for _ in range(int(n)):
+                if self.loop.has_ready():
+                    self.loop.run_batch()
+            self.n_closes += 1
+            self.closed_at = now
+            if what == "shutdown":
+                self.shutdown_at = now
+            self.close_tasks.append(self.loop.create_task(self.pairing.shutdown() if what == "shutdown" else self.pairing.close()))
         elif k == "timer":
             self.loop.fire_next_timer()
         elif k == "idle":
